@@ -143,6 +143,7 @@ public:
   }
 
   [[nodiscard]] intrusive_stack<Item, Next> dequeue_all_reversed() noexcept {
+    UNIFEX_VERIF_YIELD("sched.aq.r_load");
     void* value = head_.load(std::memory_order_relaxed);
     if (value == nullptr) {
       // Queue is empty, return empty queue.
@@ -150,6 +151,7 @@ public:
     }
     UNIFEX_ASSERT(value != producer_inactive_value());
 
+    UNIFEX_VERIF_YIELD("sched.aq.r_xchg");
     value = head_.exchange(nullptr, std::memory_order_acquire);
     UNIFEX_ASSERT(value != producer_inactive_value());
     UNIFEX_ASSERT(value != nullptr);
